@@ -134,6 +134,19 @@ CLAIMED["C09"] = dict(
 PENDING_REASON = "check under construction in this round (DESIGN.md §7 gives the plan); not claimed until its check passes on the clean tree"
 
 
+CLAIMED["C15"] = dict(
+    text="Proof (Lean 4) over Sf.Faults: the five I/O callbacks are an adversarial oracle (history -> answer, constrained only by the SF_VIRTUAL_IO contract); the read/write loops of "
+         "pcm.c/float32.c/double64.c/ulaw.c/alaw.c, the 16 wrappers, sf_seek, psf_default_seek, the AU/WAV header writers, wav tailer and close are total functions accepted without fuel "
+         "for every oracle. Proved for all oracles: callbacks per call bounded by the request (calls_terminate*), 0 <= ret <= requested under the contract (returns_in_range*), position advances "
+         "by floor(ret/channels) (position_matches_count*, full statement refuted by a proved witness: short transfer ending inside a frame, class KF.partialFrame), a failed seek keeps both "
+         "positions (seek_failure_keeps_position), one store callback never changes bytes below its position and a failing seek does not move it (accepted_prefix_preserved). Tied to the code by "
+         "(A) byte-for-byte correspondence (transcript, callback-kind sequence, final bytes) for RAW/AU/WAV encodings x 3 workloads x EVERY post-open callback x every applicable fault kind, "
+         "persistent and single-shot; (B) the K-complete enumeration (open included) on 37 representative formats (22 containers, every codec family) with the C15 predicate on the implementation's "
+         "transcript under ASan with a callback budget. Partial: block-codec loops, header parsers and the other containers' header writers are monitored by (B) only; three known-finding classes "
+         "(partial frame, unchecked psf_fseek before writes, CAF/SVX scanner hang); descriptor-route OS errors not exercised.",
+    technique="Lean 4 theorems over an oracle I/O model + complete fault-point enumeration (differential for L1 formats, predicate on implementation transcripts elsewhere)",
+    design_ref="DESIGN.md §7 C15")
+
 def main():
     checks = []
     for p in PROPS:
